@@ -384,6 +384,7 @@ fn enum_base() -> Scenario {
         evil: None,
         tp: None,
         key_update_after: None,
+        tls_aes256: false,
     }
 }
 
